@@ -80,16 +80,38 @@ theorem chain_matches (P : BState → Nat → Prop) (hP : FrameClosed P) (rules 
       · have hfr := hr.frame _ _ _ _ _ hc hrs
         exact ih (fun q' hq' => hok q' (by simp [hq'])) ⟨q, hq, hqa⟩ s' (hc.transfer hP hfr)
 
+theorem skipEmptyLines_le (s : BState) (fuel from_ : Nat) : skipEmptyLines s fuel from_ ≤ max from_ s.lineMax := by
+  induction fuel generalizing from_ with
+  | zero => simp only [skipEmptyLines]; exact Nat.le_max_left _ _
+  | succ n ih =>
+    simp only [skipEmptyLines]
+    split
+    · split
+      · split
+        · have := ih (from_ + 1); omega
+        · omega
+      · have := ih (from_ + 1); omega
+    · omega
+
+/-- where the loop leaves `state.line`: at or after the line it was started on, inside the line tables; strictly
+    after it when that line is non-empty and not outdented (what a container that just opened on it guarantees);
+    and a loop over an empty range returns its state untouched -/
+def LinePost (endLine line : Nat) (s s' : BState) : Prop :=
+  (line < endLine → line ≤ s'.line ∧ s'.line ≤ s.lineMax ∧
+     ((∀ l, s.lines[line]? = some l → l.empty = false → s.blkIndent ≤ l.sCount) → line < s'.line))
+  ∧ (¬ line < endLine → s' = s)
+
 /-- **C01.block_total** — for every chain of rules that satisfy their contracts and contain a
 fallback rule that always matches (the `paragraph` rule: "Supported" configurations keep it
 enabled), every line table with its sentinel entry, every range and every `maxNesting`, the block
-loop returns normally: no exception, no endless loop; and it leaves line tables, `lineMax`,
-`blkIndent` and `level` as it found them (the frame property C07 relies on). -/
-theorem block_total (P : BState → Nat → Prop) (hP : FrameClosed P) (rules : List BRule) (hok : ∀ r ∈ rules, RuleOK P r)
+loop returns normally: no exception, no endless loop; it leaves line tables, `lineMax`,
+`blkIndent` and `level` as it found them (the frame property C07 relies on), and `state.line` ends where
+`LinePost` says. -/
+theorem block_total_lines (P : BState → Nat → Prop) (hP : FrameClosed P) (rules : List BRule) (hok : ∀ r ∈ rules, RuleOK P r)
     (hlast : ∃ r ∈ rules, AlwaysMatches P r) (maxNesting : Int) (endLine : Nat) :
     ∀ (fuel line : Nat) (hasEmpty : Bool) (s : BState), s.lineMax + 1 ≤ s.lines.length → endLine ≤ s.lineMax →
       P s endLine → endLine - line < fuel →
-      ∃ s', blockLoop rules maxNesting endLine fuel line hasEmpty s = .ok s' ∧ s.FrameEq s' := by
+      ∃ s', blockLoop rules maxNesting endLine fuel line hasEmpty s = .ok s' ∧ s.FrameEq s' ∧ LinePost endLine line s s' := by
   intro fuel
   induction fuel with
   | zero => intro line _ s _ _ _ hf; omega
@@ -99,18 +121,29 @@ theorem block_total (P : BState → Nat → Prop) (hP : FrameClosed P) (rules : 
     split
     · rename_i hlt
       have hsk := skipEmptyLines_spec s (s.lineMax + 1) line hlen (by omega)
-      generalize hl1 : skipEmptyLines s (s.lineMax + 1) line = line1 at hsk
+      have hskle := skipEmptyLines_le s (s.lineMax + 1) line
+      generalize hl1 : skipEmptyLines s (s.lineMax + 1) line = line1 at hsk hskle
+      have hl1max : line1 ≤ s.lineMax := by omega
       split
-      · exact ⟨_, rfl, ⟨rfl, rfl, rfl, rfl⟩⟩
+      · rename_i hge
+        exact ⟨_, rfl, ⟨rfl, rfl, rfl, rfl⟩, ⟨fun _ => ⟨hsk.1, hl1max, fun _ => by show line < line1; omega⟩, fun h => absurd hlt h⟩⟩
       · rename_i hnge
         have hlt1 : line1 < s.lineMax := by omega
         obtain ⟨l, hl, hne⟩ := hsk.2 hlt1
         simp only [hl]
         split
-        · exact ⟨_, rfl, ⟨rfl, rfl, rfl, rfl⟩⟩
+        · rename_i hout
+          refine ⟨_, rfl, ⟨rfl, rfl, rfl, rfl⟩, ⟨fun _ => ⟨hsk.1, hl1max, fun hstart => ?_⟩, fun h => absurd hlt h⟩⟩
+          show line < line1
+          by_cases heq : line1 = line
+          · subst heq
+            have := hstart l hl hne
+            have hout' : l.sCount < s.blkIndent := hout
+            omega
+          · have := hsk.1; omega
         · rename_i hnout
           split
-          · exact ⟨_, rfl, ⟨rfl, rfl, rfl, rfl⟩⟩
+          · exact ⟨_, rfl, ⟨rfl, rfl, rfl, rfl⟩, ⟨fun _ => ⟨by show line ≤ endLine; omega, hend, fun _ => hlt⟩, fun h => absurd hlt h⟩⟩
           · -- run the chain on s1 = { s with line := line1 }
             have hfr1 : s.FrameEq { s with line := line1 } := ⟨rfl, rfl, rfl, rfl⟩
             have hctx : CallCtx P { s with line := line1 } line1 endLine :=
@@ -142,6 +175,7 @@ theorem block_total (P : BState → Nat → Prop) (hP : FrameClosed P) (rules : 
             have hpos : 1 ≤ s2.line := by omega
             have hcast : ((s2.line : Int) - 1) = ((s2.line - 1 : Nat) : Int) := by omega
             have hle2 : s2.line ≤ s2.lineMax := by rw [hfr2.2.1]; exact hp.2
+            have hle2s : s2.line ≤ s.lineMax := hp.2
             have hscrut : ∃ e1, (if (s2.line : Int) - 1 < (endLine : Int) then
                 ({ s2 with tight := !hasEmpty } : BState).isEmpty ((s2.line : Int) - 1) else Except.ok false) = .ok e1 := by
               split
@@ -151,24 +185,44 @@ theorem block_total (P : BState → Nat → Prop) (hP : FrameClosed P) (rules : 
             obtain ⟨e1, he1⟩ := hscrut
             rw [he1]
             simp only
+            -- every continuation recurses on a state `st` framed like `s`, with `st.line = l'` and `line1 < l'`
+            have fin : ∀ (l' : Nat) (he : Bool) (st : BState), s.FrameEq st → st.line = l' → s2.line ≤ l' → l' ≤ s.lineMax →
+                ∃ s', blockLoop rules maxNesting endLine n l' he st = .ok s' ∧ s.FrameEq s' ∧ LinePost endLine line s s' := by
+              intro l' he st hfst hstl hl' hl'max
+              have hlenst : st.lineMax + 1 ≤ st.lines.length := by rw [hfst.1, hfst.2.1]; exact hlen
+              have hendst : endLine ≤ st.lineMax := by rw [hfst.2.1]; exact hend
+              obtain ⟨s', hs', hfr', hpost⟩ := ih l' he st hlenst hendst (hP _ _ _ hfst hPs) (by omega)
+              refine ⟨s', hs', frameEq_trans hfst hfr', ⟨fun _ => ?_, fun h => absurd hlt h⟩⟩
+              have hge : l' ≤ s'.line ∧ s'.line ≤ s.lineMax := by
+                by_cases hlt2 : l' < endLine
+                · have := hpost.1 hlt2
+                  rw [hfst.2.1] at this
+                  exact ⟨this.1, this.2.1⟩
+                · have := hpost.2 hlt2
+                  rw [this, hstl]; exact ⟨Nat.le_refl _, hl'max⟩
+              have := hsk.1
+              exact ⟨by omega, hge.2, fun _ => by omega⟩
             split
             · rename_i hl2
               obtain ⟨e2, he2⟩ := hem s2.line (by omega)
               rw [he2]
               simp only
               split
-              · have hfr4 : s.FrameEq { s2 with tight := !hasEmpty, line := s2.line + 1 } :=
-                  ⟨hfr2.1, hfr2.2.1, hfr2.2.2.1, hfr2.2.2.2⟩
-                obtain ⟨s', hs', hfr'⟩ := ih (s2.line + 1) true { s2 with tight := !hasEmpty, line := s2.line + 1 }
-                  hlen2 hend2 (hP _ _ _ hfr4 hPs) (by omega)
-                exact ⟨s', hs', frameEq_trans hfr4 hfr'⟩
-              · obtain ⟨s', hs', hfr'⟩ := ih s2.line (hasEmpty || e1) { s2 with tight := !hasEmpty } hlen2 hend2
-                  (hP _ _ _ hfr3 hPs) (by omega)
-                exact ⟨s', hs', frameEq_trans hfr3 hfr'⟩
-            · obtain ⟨s', hs', hfr'⟩ := ih s2.line (hasEmpty || e1) { s2 with tight := !hasEmpty } hlen2 hend2
-                (hP _ _ _ hfr3 hPs) (by omega)
-              exact ⟨s', hs', frameEq_trans hfr3 hfr'⟩
-    · exact ⟨s, rfl, frameEq_refl s⟩
+              · exact fin (s2.line + 1) true { s2 with tight := !hasEmpty, line := s2.line + 1 }
+                  ⟨hfr2.1, hfr2.2.1, hfr2.2.2.1, hfr2.2.2.2⟩ rfl (by omega) (by omega)
+              · exact fin s2.line (hasEmpty || e1) { s2 with tight := !hasEmpty } hfr3 rfl (Nat.le_refl _) hle2s
+            · exact fin s2.line (hasEmpty || e1) { s2 with tight := !hasEmpty } hfr3 rfl (Nat.le_refl _) hle2s
+    · rename_i hnlt
+      exact ⟨s, rfl, frameEq_refl s, ⟨fun h => absurd h hnlt, fun _ => rfl⟩⟩
+
+theorem block_total (P : BState → Nat → Prop) (hP : FrameClosed P) (rules : List BRule) (hok : ∀ r ∈ rules, RuleOK P r)
+    (hlast : ∃ r ∈ rules, AlwaysMatches P r) (maxNesting : Int) (endLine : Nat) :
+    ∀ (fuel line : Nat) (hasEmpty : Bool) (s : BState), s.lineMax + 1 ≤ s.lines.length → endLine ≤ s.lineMax →
+      P s endLine → endLine - line < fuel →
+      ∃ s', blockLoop rules maxNesting endLine fuel line hasEmpty s = .ok s' ∧ s.FrameEq s' := by
+  intro fuel line hasEmpty s hlen hend hPs hf
+  obtain ⟨s', h, hfr, _⟩ := block_total_lines P hP rules hok hlast maxNesting endLine fuel line hasEmpty s hlen hend hPs hf
+  exact ⟨s', h, hfr⟩
 
 /-- the entry point with the fuel the model gives itself -/
 theorem block_tokenize_total (P : BState → Nat → Prop) (hP : FrameClosed P) (rules : List BRule)
